@@ -147,6 +147,15 @@ def run(case, res):
     for r in regs:
         if len(syn.reg_map[r]) != r.bitwidth:
             return Violation('maps', 'reg_map_values', {'reg': r.name}, tags0)
+        # "started from the same register reset values": bit i of the original's reset value,
+        # and no reset value where the original has none (the simulator's default_value then
+        # decides for both alike)
+        for i, w in enumerate(syn.reg_map[r]):
+            want = None if r.reset_value is None else (r.reset_value >> i) & 1
+            if w.reset_value != want:
+                return Violation('maps', 'register_bit_reset_value',
+                                 {'reg': r.name, 'bit': i, 'original_reset': r.reset_value,
+                                  'bit_reset': w.reset_value}, tags0 + ['reset_value'])
     # ---- behaviour ----------------------------------------------------------------------
     nl_o = Netlist.from_script(script)
     tape = case['cycles']
